@@ -54,6 +54,21 @@ def mutations(seed, rng, tier, full=False, window=None):
     return out
 
 
+SPECIAL_NUMBERS = ["NaN", "nan", "inf", "-inf", "infinity", "1e40", "1e-40", "-1", "-0", "+1", "0", "00", "1.", ".5", ".", "", "0x10", "1,0", "4294967295", "4294967296",
+                   "65535", "65536", "18446744073709551616", "999999999999999999999999", "0.0000000000000000000000001", "1e", "e1", " 1", "1 "]
+
+
+def number_mutations(seed):
+    """text-level: every number in an HTTP head replaced by every special spelling (quality values, lengths, versions, status)"""
+    import re
+    out = []
+    txt = seed.decode("latin-1")
+    for m in re.finditer(r"\d+(?:\.\d+)?", txt):
+        for sp in SPECIAL_NUMBERS:
+            out.append((txt[:m.start()] + sp + txt[m.end():]).encode("latin-1"))
+    return out
+
+
 def pcap_frames(path, limit):
     fr = []
     try:
@@ -132,6 +147,7 @@ def run(tier, v):
     seeds["hello"].append(H)
     seeds["frame"].append(c10.frame((10, 3, 0, 1), (10, 3, 0, 2), 40123, 443, 1, 1, 0x18, H, ipid=77))
     seeds["h1req"].append(b"GET /index.html HTTP/1.1\r\nHost: www.example.com\r\nUser-Agent: Mozilla/5.0\r\nAccept-Language: en-US,en;q=0.5\r\nCookie: a=1; b=2\r\n\r\nbody")
+    seeds["h1req"].append(b"POST /p?x=1 HTTP/1.0\r\nHost: h\r\nAccept-Language: de;q=0.8, fr;q=0.7, es;q=0.25, en\r\nContent-Length: 4\r\nRange: bytes=0-5\r\n\r\nbody")
     seeds["h1resp"].append(b"HTTP/1.1 200 OK\r\nServer: Apache\r\nContent-Type: text/html\r\nContent-Length: 4\r\n\r\nbody")
     h2 = []
     vlib.tlc("MC_C17", pid=PID, workers=4, tag_sink=lambda tag, o: h2.append(bytes(o["bytes"])), timeout=1800, heap="10g", coverage=False)
@@ -149,6 +165,10 @@ def run(tier, v):
             full = (kind != "frame" and len(s) <= 600) or (tier == "thorough" and kind == "frame" and k < 6)
             # captured frames are long: mutate their headers (Ethernet + IP + TCP + options and the first payload bytes) only
             inputs[kind] += mutations(s, rng, tier, full, window=(160 if kind == "frame" and k >= 6 else None)) + [s]
+    for s_ in seeds["h1req"]:
+        inputs["h1req"] += number_mutations(s_)
+    for s_ in seeds["h1resp"]:
+        inputs["h1resp"] += number_mutations(s_)
     inputs["frame"] += optframes
     # the structured malformed spaces of Totality.tla: as parser input and as the payload of a segment of a tracked connection
     inputs["h2"] += h2shapes
